@@ -366,6 +366,10 @@ func (m *Machine) valueOf(t *Term) (uint64, bool) {
 	aux := m.ts.Var(t.w, fmt.Sprintf("aux!%d", m.nAux))
 	eq := m.ts.Eq(aux, t)
 	v := m.solver.Check(eq)
+	for retry := 0; v == Unknown && retry < 3; retry++ {
+		// a timeout on a loaded machine is transient: ask again
+		v = m.solver.Check(eq)
+	}
 	if v != Sat {
 		return 0, false
 	}
